@@ -25,6 +25,13 @@ RX_DECIMAL = re.compile(r'[+-]?(\d+(\.\d*)?|\.\d+)', re.ASCII)
 RX_INTEGER = re.compile(r'[+-]?\d+', re.ASCII)
 RX_DATE = re.compile(r'(-?)(\d{4,})-(\d\d)-(\d\d)(Z|[+-]\d\d:\d\d)?', re.ASCII)
 RX_LANGUAGE_UNION = re.compile(r'([a-zA-Z]{1,8})(-[a-zA-Z0-9]{1,8})*|[iI]-[a-zA-Z]+(-[a-zA-Z]{1,8})*')
+RX_LANGUAGE_STRICT = re.compile(r'[a-zA-Z]{2}(-[a-zA-Z]{1,8})*')
+# strict name classes: characters that are name characters in BOTH the 4th and the 5th edition of XML 1.0
+S_START = ':A-Z_a-z\u00C0-\u00D6\u00D8-\u00F6'
+S_CHAR = S_START + '\\-.0-9'
+RX_NMTOKEN_S = re.compile('[%s]+' % S_CHAR)
+RX_NAME_S = re.compile('[%s][%s]*' % (S_START, S_CHAR))
+RX_NCNAME_S = re.compile('[%s][%s]*' % (S_START[1:], S_CHAR[1:]))
 RX_NMTOKEN = re.compile('[%s]+' % NAME_CHAR)
 RX_NAME = re.compile('[%s][%s]*' % (NAME_START, NAME_CHAR))
 RX_NCNAME = re.compile('[%s][%s]*' % (NC_START, NC_CHAR))
@@ -215,7 +222,16 @@ def all_simple_type_names():
     return sorted(schema().simple) + sorted(BUILTIN_BASE)
 
 
-def _valid_builtin(b, t):
+def _valid_builtin(b, t, strict=False):
+    if strict:
+        if b == 'xs:NMTOKEN':
+            return RX_NMTOKEN_S.fullmatch(t) is not None
+        if b == 'xs:Name':
+            return RX_NAME_S.fullmatch(t) is not None
+        if b in ('xs:NCName', 'xs:ID', 'xs:IDREF'):
+            return RX_NCNAME_S.fullmatch(t) is not None
+        if b == 'xs:language':
+            return RX_LANGUAGE_STRICT.fullmatch(t) is not None
     if b == 'xs:decimal':
         return RX_DECIMAL.fullmatch(t) is not None
     if b == 'xs:integer':
@@ -261,20 +277,22 @@ def normalise(tname, text):
     return collapse(text) if ti.whitespace == 'collapse' else text
 
 
-def valid(tname, text):
-    """text in the lexical space of tname (after whiteSpace processing)?"""
+def valid(tname, text, strict=False):
+    """text in the lexical space of tname (after whiteSpace processing)?
+    strict=False: permissive reading (union of the editions' name classes / language patterns) - a text this rejects
+    is invalid under every reading; strict=True: intersection - a text this accepts is valid under every reading."""
     ti = info(tname)
     if ti.union is not None:
-        return any(valid(m, text) for m in ti.union)
+        return any(valid(m, text, strict) for m in ti.union)
     t = normalise(tname, text)
     for b in ti.chain:
-        if not _valid_builtin(b, t):
+        if not _valid_builtin(b, t, strict):
             return False
     en = ti.enumeration
     if en is not None and t not in en:
         return False
     for p in ti.patterns:
-        if re.fullmatch(translate_pattern(p), t, re.DOTALL) is None:
+        if re.fullmatch(translate_pattern(p, narrow=strict), t, re.DOTALL) is None:
             return False
     if ti.min_length is not None and len(t) < ti.min_length:
         return False
